@@ -3,7 +3,7 @@ Loop lemmas for SrcEqZone.lean: the binary search macro for an arbitrary key fun
 that the index it returns is a natural number), the forward leap conversion loop, and the two loops of
 `check_inputs`. Each lemma is generic in the loop body `f` and takes the body's equation as a hypothesis.
 -/
-import TzVerif.Generated.Src
+import TzVerif.SrcBase
 import TzVerif.Model.TimeZone
 import TzVerif.Proofs.SrcEqCal
 
